@@ -586,4 +586,178 @@ example : ∃ (s s' : CState) (ret ret' : Nat),
 
 end EndToEnd
 
+/-! ## End to end on the general compiler class (`C06.C06_general_partial`)
+
+The class `inXorFragment` above is a single tree-like definition.  `inGeneralClean inputs defs [r]` admits what the
+front end and the optimizer really hand over: several definitions (named intermediates first, the return bit a new
+name defined once, last), sub-expressions shared inside and across definitions (cache hits), re-binding, constants.
+`C06_general_partial` has two side conditions about the *compiled* circuit, both decidable on the compiler's
+output and both evaluated by the driver per instance: the qubit of the return name is not an argument qubit and is
+never a control of a compiled gate (`retNeverControl`; it fails e.g. when the return bit is an alias of an
+intermediate other gates read).  They are hypotheses here too. -/
+
+section EndToEndGeneral
+open QV.Compiler (compile inGeneralClean inXorFragment dictGet? CState retNeverControl)
+open QV.EndToEnd (predOf)
+
+/-- **C15 end to end on the general class.**  As `C15_end_to_end_fragment`, for every definition list of
+`inGeneralClean inputs defs [r]` and every successful run of the compiler model whose return qubit `ret` is not an
+argument qubit and never a control. -/
+theorem C15_end_to_end_general (q : Quirks) (inputs : List String) (defs : List (String × BExp))
+    (r : String) (choices : List Nat) (s : CState) (ret M : Nat)
+    (hf : inGeneralClean inputs defs [r] = true)
+    (h : (compile inputs defs (some [r]) true).run { choices := choices } = .ok ((), s))
+    (hret : dictGet? s.qc.qmap r = some ret) (hge : inputs.length ≤ ret)
+    (hnc : retNeverControl s.qc.gates.toList ret = true)
+    (h2 : 2 ≤ inputs.length) (h6 : inputs.length ≤ 6)
+    (hcount : ((allStates inputs.length).filter (predOf inputs defs r)).length = M)
+    (hM : 1 ≤ M) (hq : 4 * M ≤ 2 ^ inputs.length) :
+    ∃ k, kDefault inputs.length M = some k ∧
+      let gs := groverGates q inputs.length s.qc.gates.toList s.qc.numQubits ret k
+      let pr := predict inputs.length M k
+      (∀ x : BState, x.length = inputs.length →
+        probNum gs (s.qc.numQubits + 1) inputs.length x * pr.2.2
+          = (if predOf inputs defs r x then pr.1 else pr.2.1) * 2 ^ hCount gs) ∧
+      pr.2.1 < pr.1 ∧ pr.2.2 < 2 * (M * pr.1) := by
+  obtain ⟨_, hO, _⟩ := EndToEnd.compile_oracles_general inputs defs r choices s ret hf h hret hge hnc
+  exact C15_full.1 q inputs.length M s.qc.numQubits ret s.qc.gates.toList (predOf inputs defs r)
+    h2 h6 hcount hM hq hO
+
+/-- the distribution for every width, every number of solutions and every iteration count `k ≥ 1`, general class -/
+theorem C15_end_to_end_general_distribution (q : Quirks) (inputs : List String) (defs : List (String × BExp))
+    (r : String) (choices : List Nat) (s : CState) (ret M : Nat)
+    (hf : inGeneralClean inputs defs [r] = true)
+    (h : (compile inputs defs (some [r]) true).run { choices := choices } = .ok ((), s))
+    (hret : dictGet? s.qc.qmap r = some ret) (hge : inputs.length ≤ ret)
+    (hnc : retNeverControl s.qc.gates.toList ret = true)
+    (hcount : ((allStates inputs.length).filter (predOf inputs defs r)).length = M)
+    (k : Nat) (hk : 1 ≤ k) (x : BState) (hx : x.length = inputs.length) :
+    probNum (groverGates q inputs.length s.qc.gates.toList s.qc.numQubits ret k) (s.qc.numQubits + 1)
+        inputs.length x * (predict inputs.length M k).2.2
+      = (if predOf inputs defs r x then (predict inputs.length M k).1 else (predict inputs.length M k).2.1)
+        * 2 ^ hCount (groverGates q inputs.length s.qc.gates.toList s.qc.numQubits ret k) := by
+  obtain ⟨_, hO, _⟩ := EndToEnd.compile_oracles_general inputs defs r choices s ret hf h hret hge hnc
+  exact grover_distribution q inputs.length M s.qc.numQubits ret s.qc.gates.toList (predOf inputs defs r)
+    hcount hO k hk x hx
+
+/-- **Independence of how the predicate is written or compiled, general class.**  Two definition lists of the
+general class (e.g. one with a named intermediate read twice, one a single tree) that denote the same predicate,
+any two successful compilations meeting the side conditions: same probability of every outcome, for every
+`k ≥ 1`. -/
+theorem C15_end_to_end_general_independent (q q' : Quirks) (inputs inputs' : List String)
+    (defs defs' : List (String × BExp)) (r r' : String) (choices choices' : List Nat) (s s' : CState)
+    (ret ret' : Nat)
+    (hf : inGeneralClean inputs defs [r] = true) (hf' : inGeneralClean inputs' defs' [r'] = true)
+    (h : (compile inputs defs (some [r]) true).run { choices := choices } = .ok ((), s))
+    (h' : (compile inputs' defs' (some [r']) true).run { choices := choices' } = .ok ((), s'))
+    (hret : dictGet? s.qc.qmap r = some ret) (hge : inputs.length ≤ ret)
+    (hnc : retNeverControl s.qc.gates.toList ret = true)
+    (hret' : dictGet? s'.qc.qmap r' = some ret') (hge' : inputs'.length ≤ ret')
+    (hnc' : retNeverControl s'.qc.gates.toList ret' = true)
+    (hlen : inputs'.length = inputs.length)
+    (hsame : ∀ x : List Bool, x.length = inputs.length → predOf inputs defs r x = predOf inputs' defs' r' x)
+    (k : Nat) (hk : 1 ≤ k) (x : BState) (hx : x.length = inputs.length) :
+    probNum (groverGates q inputs.length s.qc.gates.toList s.qc.numQubits ret k)
+        (s.qc.numQubits + 1) inputs.length x
+      = probNum (groverGates q' inputs.length s'.qc.gates.toList s'.qc.numQubits ret' k)
+        (s'.qc.numQubits + 1) inputs.length x ∧
+    hCount (groverGates q inputs.length s.qc.gates.toList s.qc.numQubits ret k)
+      = hCount (groverGates q' inputs.length s'.qc.gates.toList s'.qc.numQubits ret' k) := by
+  obtain ⟨_, hO, _⟩ := EndToEnd.compile_oracles_general inputs defs r choices s ret hf h hret hge hnc
+  obtain ⟨_, hO', _⟩ :=
+    EndToEnd.compile_oracles_general inputs' defs' r' choices' s' ret' hf' h' hret' hge' hnc'
+  rw [hlen] at hO'
+  have hO'' := EndToEnd.cleanXorOracle_congr hO' (fun y hy => (hsame y hy).symm)
+  exact compilation_independent q q' inputs.length _ ret _ ret' _ _ _ hO hO'' k hk x hx
+
+/-! ### concrete members of the general class, compiled by the model -/
+
+/-- `m = a.0 & a.1; _ret = m ^ (a.2 & m)`: two statements, the intermediate `m` read twice – the predicate
+`a.0 ∧ a.1 ∧ ¬a.2` of `exDefs` again; outside `inXorFragment` -/
+def exGenDefs : List (String × BExp) :=
+  [("m", .and [.sym "a.0", .sym "a.1"]), ("_ret", .xor [.sym "m", .and [.sym "a.2", .sym "m"]])]
+/-- one statement in which the compound sub-expression `a.0 & a.1` occurs twice (a cache hit of the compiler's
+expression map): `_ret = (a.0 & a.1) ^ (a.2 & (a.0 & a.1))`; not tree-like, outside `inXorFragment` -/
+def exHitDefs : List (String × BExp) :=
+  [("_ret", .xor [.and [.sym "a.0", .sym "a.1"], .and [.sym "a.2", .and [.sym "a.0", .sym "a.1"]]])]
+
+theorem exGen_class : inGeneralClean exInputs exGenDefs ["_ret"] = true ∧ inXorFragment exInputs exGenDefs ["_ret"] = false ∧
+    inGeneralClean exInputs exHitDefs ["_ret"] = true ∧ inXorFragment exInputs exHitDefs ["_ret"] = false ∧
+    inGeneralClean exInputs exDefs ["_ret"] = true := by
+  decide +kernel
+
+/-- the model compiles `exGenDefs` (choices 3, 4: `m` on qubit 3, `_ret` on qubit 4; gates
+`MCX [0,1]→3, CX 3→4, MCX [2,3]→4, MCX [0,1]→3`), `_ret` sits on qubit 4 and is never a control -/
+theorem exGen_compiles :
+    ∃ s, (compile exInputs exGenDefs (some ["_ret"]) true).run { choices := [3, 4] } = .ok ((), s) ∧
+      dictGet? s.qc.qmap "_ret" = some 4 ∧ retNeverControl s.qc.gates.toList 4 = true := by
+  apply EndToEnd.runCheck_ok
+  simp only [compile, exInputs, exGenDefs, Compiler.compileDefs, Compiler.compileExpr, Compiler.compileArgs,
+    Compiler.compileXorArgs, EndToEnd.sortNat_eq]
+  decide +kernel
+
+/-- the model compiles `exHitDefs` (choices 3, 4: `_ret` on qubit 3, the shared `a.0 & a.1` on qubit 4) -/
+theorem exHit_compiles :
+    ∃ s, (compile exInputs exHitDefs (some ["_ret"]) true).run { choices := [3, 4] } = .ok ((), s) ∧
+      dictGet? s.qc.qmap "_ret" = some 3 ∧ retNeverControl s.qc.gates.toList 3 = true := by
+  apply EndToEnd.runCheck_ok
+  simp only [compile, exInputs, exHitDefs, Compiler.compileDefs, Compiler.compileExpr, Compiler.compileArgs,
+    Compiler.compileXorArgs, EndToEnd.sortNat_eq]
+  decide +kernel
+
+theorem exGen_same_predicate :
+    ∀ x : List Bool, x.length = exInputs.length →
+      predOf exInputs exGenDefs "_ret" x = predOf exInputs exDefs "_ret" x ∧
+      predOf exInputs exHitDefs "_ret" x = predOf exInputs exDefs "_ret" x := by
+  intro x hx
+  match x, hx with
+  | [a, b, c], _ => cases a <;> cases b <;> cases c <;> decide +kernel
+
+/-- non-vacuity of `C15_end_to_end_general`: every hypothesis holds for the two-statement predicate -/
+example : ∃ s k,
+    (compile exInputs exGenDefs (some ["_ret"]) true).run { choices := [3, 4] } = .ok ((), s) ∧
+    kDefault 3 1 = some k ∧
+    (∀ x : BState, x.length = 3 →
+      probNum (groverGates Quirks.none 3 s.qc.gates.toList s.qc.numQubits 4 k) (s.qc.numQubits + 1) 3 x
+          * (predict 3 1 k).2.2
+        = (if predOf exInputs exGenDefs "_ret" x then (predict 3 1 k).1 else (predict 3 1 k).2.1)
+          * 2 ^ hCount (groverGates Quirks.none 3 s.qc.gates.toList s.qc.numQubits 4 k)) ∧
+    (predict 3 1 k).2.2 < 2 * (1 * (predict 3 1 k).1) := by
+  obtain ⟨s, hs, hq, hnc⟩ := exGen_compiles
+  obtain ⟨k, hk, hd, _, hhalf⟩ :=
+    C15_end_to_end_general Quirks.none exInputs exGenDefs "_ret" [3, 4] s 4 1 exGen_class.1 hs hq (by decide) hnc
+      (by decide) (by decide) (by decide +kernel) (by decide) (by decide)
+  exact ⟨s, k, hs, hk, hd, hhalf⟩
+
+/-- non-vacuity of `C15_end_to_end_general_independent`: the two-statement list with the shared intermediate, the
+one-statement list with the cache hit and the tree-like `exDefs` (in both classes), compiled to three different
+circuits, give the same distribution -/
+example : ∃ (s s' s'' : CState) (ret'' : Nat),
+    (compile exInputs exGenDefs (some ["_ret"]) true).run { choices := [3, 4] } = .ok ((), s) ∧
+    (compile exInputs exHitDefs (some ["_ret"]) true).run { choices := [3, 4] } = .ok ((), s') ∧
+    (compile exInputs exDefs (some ["_ret"]) true).run { choices := [3, 4] } = .ok ((), s'') ∧
+    dictGet? s''.qc.qmap "_ret" = some ret'' ∧
+    ∀ x : BState, x.length = 3 →
+      probNum (groverGates Quirks.none 3 s.qc.gates.toList s.qc.numQubits 4 3) (s.qc.numQubits + 1) 3 x
+        = probNum (groverGates Quirks.none 3 s'.qc.gates.toList s'.qc.numQubits 3 3) (s'.qc.numQubits + 1) 3 x ∧
+      probNum (groverGates Quirks.none 3 s.qc.gates.toList s.qc.numQubits 4 3) (s.qc.numQubits + 1) 3 x
+        = probNum (groverGates Quirks.none 3 s''.qc.gates.toList s''.qc.numQubits ret'' 3) (s''.qc.numQubits + 1) 3 x := by
+  obtain ⟨s, hs, hq, hnc⟩ := exGen_compiles
+  obtain ⟨s', hs', hq', hnc'⟩ := exHit_compiles
+  obtain ⟨s'', hs''⟩ := exDefs_compiles
+  obtain ⟨ret'', hret'', _, _, hO'', _⟩ :=
+    EndToEnd.compile_oracles exInputs exDefs ["_ret"] [3, 4] s'' (by decide +kernel) hs'' "_ret" List.mem_cons_self
+  refine ⟨s, s', s'', ret'', hs, hs', hs'', hret'', fun x hx => ⟨?_, ?_⟩⟩
+  · exact (C15_end_to_end_general_independent Quirks.none Quirks.none exInputs exInputs exGenDefs exHitDefs
+      "_ret" "_ret" _ _ s s' 4 3 exGen_class.1 exGen_class.2.2.1 hs hs' hq (by decide) hnc hq' (by decide) hnc' rfl
+      (fun y hy => ((exGen_same_predicate y hy).1).trans ((exGen_same_predicate y hy).2).symm)
+      3 (by decide) x hx).1
+  · -- against the tree-like definition, through the fragment bridge
+    obtain ⟨_, hO, _⟩ := EndToEnd.compile_oracles_general exInputs exGenDefs "_ret" [3, 4] s 4 exGen_class.1 hs hq
+      (by decide) hnc
+    have hO2 := EndToEnd.cleanXorOracle_congr hO'' (fun y hy => ((exGen_same_predicate y hy).1).symm)
+    exact (compilation_independent Quirks.none Quirks.none 3 _ 4 _ ret'' _ _ _ hO hO2 3 (by decide) x hx).1
+
+end EndToEndGeneral
+
 end QV.C15
